@@ -9,7 +9,7 @@ ID = 'C08'
 LEVEL = 'exploration'
 TECHNIQUE = ('property-based testing (Hypothesis) of arrival-time sequences on a tie-aware virtual-time grid; debounce invariants '
              '(no overlap, no empty call, no early call, exactly one call timeout after an isolated burst)')
-RULE = ('cases: up to 10 immediately-available submissions (plain calls, list/tuple/range iterables incl. empty ones) and '
+RULE = ('cases: up to 10 immediately-available submissions (a quarter of the cases add plain calls from a foreign thread running its own loop) (plain calls, list/tuple/range iterables incl. empty ones) and '
         'wait(cancel=False) on the grid {0, 1/64, T/2, T-1/64, T, T+1/64, 2T, 3T}, T in {1/4, 1}, function duration 0 / T/2 / 2T, '
         'failing invocations; comparisons within 1/64 s of a tie are skipped and counted. non-trivial: a burst of >=2 arrivals with '
         'a gap in [T/2, T); distinct by case hash')
@@ -22,8 +22,14 @@ simplify = B.simplify
 
 
 def strategy(tier):
-    return B.with_schedule(B.program(nmax=10, kinds=('call', 'call', 'call', 'map', 'wait'), immediate_only=True,
-                                     forced_flush=False, fail_p=2), 1)
+    from hypothesis import strategies as st
+    kinds = ('call', 'call', 'call', 'map', 'wait')
+    vt = B.with_schedule(B.program(nmax=10, kinds=kinds, immediate_only=True, forced_flush=False, fail_p=2), 1)
+    # submissions also arrive from another thread (which has its own running loop): the statement is about
+    # arrival times, not about who submits
+    foreign = B.with_schedule(B.program(nmax=5, kinds=kinds, immediate_only=True, forced_flush=False, fail_p=1,
+                                        with_foreign=1, foreign_ops=('call',), foreign_waits=False), 2)
+    return st.one_of(vt, vt, vt, foreign)
 
 
 def run_case(case):
@@ -50,4 +56,6 @@ def run_case(case):
         cl.append('function-failed')
     if any(not s['values'] for s in hist['subs']):
         cl.append('empty-iterable-arrival')
+    if case.get('foreign'):
+        cl.append('foreign-arrivals')
     return Result(viol, nt, cl, H.abbreviate(hist), {'steps': hist['steps'], 'skipped_bursts': skipped})
